@@ -153,6 +153,10 @@ func (e *Expression) Add(res fhir.Resource, name string, value fhir.Base, option
 		}
 	}
 
+	if field.Message() == nil {
+		// the proto-native value of a primitive element, not an element
+		return fmt.Errorf("%w: '%v'", fhirpath.ErrInvalidField, name)
+	}
 	if !field.IsList() && ref.Has(field) {
 		return fmt.Errorf("%w: unable to add value to populated scalar field '%v' in %v resource", ErrNotPatchable, name, resource.TypeOf(res))
 	}
